@@ -51,7 +51,10 @@ class C08(Prop):
                   "hash_living_name); the correspondence harness (differential, only the generated histories); hooks are oracle "
                   "scripts; crash freedom is proved (no_crash); termination of the super walk is not ("
                   "never observed to be `hang`) nor the string-level top theorem judge(model trace) = []")
-    rule = ("cases = corpus + known-finding inputs + boundary list (failing moves, self-destructing create, destruct during the "
+    rule = ("[audit round: adds move_object(string) / first_inventory(string) with loads that run create() hooks, present() with "
+            "id() hooks, add_action / command(), the backend tick (heart_beat() of every enabled object incl. the last one "
+            "destructing itself), errors inside every hook kind, heart_beats() listing; oracle self-test of 82 traces] "
+            "cases = corpus + known-finding inputs + boundary list (failing moves, self-destructing create, destruct during the "
             "init fan-out, move_or_destruct hooks that move / destruct / re-enter, living names, reference read-back, a 220 "
             "object population) + seeded random histories of load/clone/move/destruct/enable_commands/set_living_name/"
             "find_object/find_living/error from top level and from create/init/move_or_destruct hook scripts, populations 2..8 "
@@ -286,6 +289,9 @@ class C08(Prop):
         mk("heart-beat-earlier-object-destructs-the-last", "script o2 hbeat de,o4\nt ld,b0\nt cl,b0\nt cl,b0\nt hbe,o2\nt hbe,o3\nt hbe,o4\ntick\nsnap\nprobe\ntick\n" + tail)
         mk("heart-beat-variants", """script o2 hbeat mv,o2,o3;de,o3\nscript o4 hbeat hbd,o5;hbe,o6\nscript o5 hbeat err\nscript o6 hbeat cl,b0\nscript o4 hbeat de,o2;de,o4
             t ld,b0\nt cl,b0\nt cl,b0\nt cl,b0\nt cl,b0\nt hbe,o2\nt hbe,o4\nt hbe,o5\ntick\nsnap\nprobe\ntick\nt hbe,o5\ntick\ngc\ntick\n""" + tail)
+        # an error inside a move_or_destruct hook must not leave the destruct restriction behind
+        mk("error-in-move_or_destruct-then-destruct", """script o3 mod err\nscript o3 mod mvarg\nt ld,b0\nt cl,b0\nt cl,b0\nt ld,b1\nt mv,o3,o2\nt mv,o2,o5
+            t de,o2\nsnap\nt de,o4\nsnap\nt de,o2\n""" + tail)
         mk("references-read-zero", """t ld,b0\nt cl,b0\nt kp,o3\nt rd\nscript o3 create kp,o2;rd\nt de,o3\nt rd\nt kp,o3\nt mv,o3,o2\nt mv,o2,o3\nt ec,o3\nt ln,o3,x\nt de,o3\ngc\nt rd\n""" + tail)
         mk("reload-after-destruct", "t ld,b0\nt cl,b0\nt de,o2\nt fo,b0\nt ld,b0\nt fo,b0\nt cl,b0\nt fo,b0#1\nt fo,b0#2\ngc\nt de,o4\nt ld,b0\n" + tail)
         mk("find-moves-to-front", "t ld,b0\nt ld,b1\nt ld,b2\nt ld,b3\nt ld,b4\nt ld,b5\nt ld,b6\nt ld,b7\nsnap\nt fo,b0\nt fo,b3\nt fo,b5\nsnap\nt de,o4\nt de,o9\n" + tail)
@@ -425,6 +431,11 @@ class C08(Prop):
                 body.append("tick")
                 if rng.chance(1, 3):
                     body.append("tick")
+            elif rng.chance(1, 20) and st["top"] >= 3:
+                # an error inside a move_or_destruct hook, then ordinary destructs
+                x, y = rng.range(2, st["top"] + 1), rng.range(2, st["top"] + 1)
+                st.setdefault("extra_scripts", []).append("script o%d mod err" % y)
+                body += ["t mv,o%d,o%d" % (y, x), "t de,o%d" % x, "t de,o%d" % rng.range(2, st["top"] + 1), "t de,o%d" % x]
             elif rng.chance(1, 15) and st["top"] >= 2:
                 # living names: name, enable, look up (also after disable / destruct)
                 x = rng.range(2, st["top"] + 1)
